@@ -191,28 +191,43 @@ def stage_which(ctx, stats):
                 env = {'PATH': ':'.join(groups['env'][1])}
                 if not groups['env'][1]:
                     envmode = 'empty'
-            if cwd_for_call:
-                os.chdir(cwd_for_call)
-            try:
-                got = U.which(fname, env=env)
-            finally:
-                os.chdir(saved_cwd)
-            # canonical id of the answer
-            if got is None:
-                r = 'none'
-            elif explicit and got == fname:
-                r = '1'
-            else:
-                r = '?' + got
-                for g, off in (('env', 100), ('os', 200), ('def', 300)):
-                    for j, d in enumerate(groups[g][1]):
-                        if got == os.path.join(d, fname) and os.path.normpath(got) == os.path.join(d, 'prog'):
-                            r = str(off + j)
-            bits = lambda g: ','.join('1' if is_exec_kind(k) else '0' for k in groups[g][0]) or '-'
-            lines.append('WH %d %d %s %s %s %s %s' % ((2 if fname == './prog' else 1) if explicit else 0, 1 if (explicit and is_exec_kind(ekind)) else 0,
-                                                       'unset' if envmode == 'emptydict' else envmode, osmode, bits('env'), bits('os'), bits('def')))
-            reals.append(r)
-            descs.append(dict(explicit=explicit and ekind, env=envmode, os=osmode, layout={g: groups[g][0] for g in groups}))
+            # the same question asked again after the directories changed (a program installed earlier on the PATH, removed,
+            # made executable ...): every answer is about the file system as it is at the time of the call
+            for epoch in range(1 if it < len(forced) else rng.choice([1, 2, 3, 4])):
+                if epoch:
+                    for g in groups:
+                        kinds, dirs = groups[g]
+                        for j, d in enumerate(dirs):
+                            if rng.random() < 0.6:
+                                pth = os.path.join(d, 'prog')
+                                if os.path.islink(pth) or os.path.isfile(pth):
+                                    os.unlink(pth)
+                                elif os.path.isdir(pth):
+                                    os.rmdir(pth)
+                                kinds[j] = rng.choice(KINDS + ['exec', 'exec', 'link_exec'])
+                                make_entry(d, 'prog', kinds[j], store)
+                if cwd_for_call:
+                    os.chdir(cwd_for_call)
+                try:
+                    got = U.which(fname, env=env)
+                finally:
+                    os.chdir(saved_cwd)
+                # canonical id of the answer
+                if got is None:
+                    r = 'none'
+                elif explicit and got == fname:
+                    r = '1'
+                else:
+                    r = '?' + got
+                    for g, off in (('env', 100), ('os', 200), ('def', 300)):
+                        for j, d in enumerate(groups[g][1]):
+                            if got == os.path.join(d, fname) and os.path.normpath(got) == os.path.join(d, 'prog'):
+                                r = str(off + j)
+                bits = lambda g: ','.join('1' if is_exec_kind(k) else '0' for k in groups[g][0]) or '-'
+                lines.append('WH %d %d %s %s %s %s %s' % ((2 if fname == './prog' else 1) if explicit else 0, 1 if (explicit and is_exec_kind(ekind)) else 0,
+                                                           'unset' if envmode == 'emptydict' else envmode, osmode, bits('env'), bits('os'), bits('def')))
+                reals.append(r)
+                descs.append(dict(explicit=explicit and ekind, env=envmode, os=osmode, layout={g: list(groups[g][0]) for g in groups}, epoch=epoch))
     finally:
         os.defpath = saved_def
         if saved_path is None:
@@ -233,7 +248,7 @@ def stage_which(ctx, stats):
                           'which() returned %s, the first executable on the effective PATH is %s (layout %s)' % (r, o, json.dumps(d)),
                           dict(line=l, model=o, real=r, layout=d))
             break
-    stats['which_layouts'] = n
+    stats['which_layouts'] = len(lines)
     return len(sigs)
 
 
